@@ -210,6 +210,15 @@ def gen_ffi_db(r, n, tier):
     for k in (1, 2, 3):
         for seq in itertools.product(base, repeat=k):
             yield "ffi db " + ",".join(seq)
+    # exhaustive: every sequence of length <= 4 over add (two different values), update and delete of
+    # one index, then what a get and a client read see (an add on a present point must not change it)
+    ops4 = ["a2.1.7", "a2.1.8", "u2.1.9", "d2.1"]
+    for k in (1, 2, 3, 4):
+        for seq in itertools.product(ops4, repeat=k):
+            yield "ffi db " + ",".join(seq) + ",g2.1,r2.1.1"
+    for t in (0, 1, 3):
+        v1, v2 = (1, 0) if t < 2 else (7, 8)
+        yield f"ffi db a{t}.65535.{v1},a{t}.65535.{v2},g{t}.65535,u{t}.65535.{v2},a{t}.65535.{v1},g{t}.65535,r{t}.65535.1"
     # the same op on every table: independence of the four maps
     for t in range(4):
         others = [x for x in range(4) if x != t]
